@@ -17,6 +17,9 @@ ops
                                                    the tables the selection loop at the end of parse() reads (captured from the
                                                    ctx that parse() hands to _parse_function), the (name, signature) of every
                                                    FunctionDef in Program.functions (by object identity), and their C++ parameters}
+                         "ir": {"lcds", "buttons", "setup", "loop", "fns": [[name, [params], nodes]]}
+                                                   the IR in the encoding of coq/Wire/C06W.v op 9 (Lang/EmitScope.v): per node kind
+                                                   only what decides which C++ names its emission declares in which block}
                         | {"ok": False, "exc", "msg"}]}
 """
 import ast
@@ -90,6 +93,76 @@ def _fnsel(prog):
     return {"fns": fns, "selected": selected, "params": params}
 
 
+
+# ---------------------------------------------------------------- IR -> node encoding of coq/Lang/EmitScope.v (Wire op 9)
+_TEMPLATE_CODE = {"ServoWrite": 10, "ServoWriteMicroseconds": 11, "DCMotorSetSpeed": 12, "DCMotorBackward": 13, "DCMotorInvert": 14,
+                  "DCMotorRamp": 15, "DCMotorRunFor": 16, "RGBLedSetColor": 17, "RGBLedOn": 17, "RGBLedOff": 17, "LedSetBrightness": 18,
+                  "LedBlink": 19, "RGBLedFade": 20, "RGBLedBlink": 21, "LedFadeIn": 22, "LedFadeOut": 22}
+_PLAIN = {"VarAssign", "ExprStmt", "ReturnStmt", "BreakStmt", "ContinueStmt", "Sleep", "SerialWrite", "SerialMonitorDecl", "LedOn", "LedOff",
+          "LedToggle", "BuzzerStop", "DCMotorStop", "DCMotorCoast", "LedDecl", "BuzzerDecl", "RGBLedDecl", "UltrasonicDecl", "ServoDecl",
+          "DCMotorDecl", "PotentiometerDecl", "ButtonDecl", "LCDWrite", "LCDLine", "LCDMessage", "LCDClear", "LCDDisplay", "LCDBacklight",
+          "LCDBrightness", "LCDProgress", "LCDAnimate", "LCDTick"}
+
+
+def _is_lit(v):
+    return 1 if isinstance(v, (int, float)) else 0
+
+
+def _enc_nodes(nodes, out):
+    for n in nodes or []:
+        k = type(n).__name__
+        if k in _TEMPLATE_CODE:
+            out.append([_TEMPLATE_CODE[k]])
+        elif k in _PLAIN:
+            out.append([0])
+        elif k == "VarDecl":
+            out.append([0] if n.global_scope else [1, cps(n.name)])
+        elif k == "IfStatement":
+            for br in n.branches:
+                out.append([2, []]); _enc_nodes(br.body, out); out.append([3])
+            if n.else_body:
+                out.append([2, []]); _enc_nodes(n.else_body, out); out.append([3])
+        elif k == "WhileLoop":
+            out.append([2, []]); _enc_nodes(n.body, out); out.append([3])
+        elif k == "ForRangeLoop":
+            out.append([2, [cps(n.var_name)]]); _enc_nodes(n.body, out); out.append([3])
+        elif k == "Repeat":
+            out.append([2, [cps("__i")]]); _enc_nodes(getattr(n, "body", []), out); out.append([3])
+        elif k == "TryStatement":
+            out.append([2, []]); _enc_nodes(n.try_body, out); out.append([3])
+            for h in n.handlers:
+                out.append([2, [cps(h.target)] if (h.exception and h.target) else []]); _enc_nodes(h.body, out); out.append([3])
+        elif k == "ButtonPoll":
+            out.append([4, cps(n.name)])
+        elif k == "LCDDecl":
+            out.append([5, cps(n.name)])
+        elif k == "LCDGlyph":
+            out.append([6, cps(n.name)])
+        elif k == "LedFlashPattern":
+            out.append([23, 0 if n.pattern else 1])
+        elif k == "BuzzerPlayTone":
+            dv = getattr(n, "duration_ms", None)
+            out.append([24, 0 if dv is None else (1 if _is_lit(dv) else 2)])
+        elif k == "BuzzerBeep":
+            out.append([25, _is_lit(n.on_ms), _is_lit(n.off_ms)])
+        elif k == "BuzzerSweep":
+            out.append([26, _is_lit(n.duration_ms)])
+        elif k == "BuzzerMelody":
+            out.append([27, 1 if n.melody in E._BUZZER_MELODIES else 0])
+        else:
+            raise ValueError("IR node kind without an EmitScope encoding: " + k)
+    return out
+
+
+def _ir(prog):
+    from Reduino.transpile import ast as A
+    top = list(prog.setup_body or []) + list(prog.loop_body or [])
+    return {"lcds": [cps(n.name) for n in top if isinstance(n, A.LCDDecl)],
+            "buttons": [cps(n.name) for n in top if isinstance(n, A.ButtonDecl)],
+            "setup": _enc_nodes(prog.setup_body, []), "loop": _enc_nodes(prog.loop_body, []),
+            "fns": [[fn.name, [cps(p) for p, _ in fn.params], _enc_nodes(fn.body, [])] for fn in getattr(prog, "functions", [])]}
+
+
 def main():
     req = json.load(sys.stdin)
     op = req["op"]
@@ -122,8 +195,12 @@ def main():
                 prog = P.parse(src)
                 fnsel = _fnsel(prog)            # before emit(): read the parser's result, not what the emitter may touch
                 decls = _decls(prog)
+                try:
+                    ir = _ir(prog)
+                except ValueError as e:
+                    ir = {"error": str(e)}
                 cpp = E.emit(prog)
-                res.append({"ok": True, "cpp": cpp, "decls": decls, "fnsel": fnsel,
+                res.append({"ok": True, "cpp": cpp, "decls": decls, "fnsel": fnsel, "ir": ir,
                             "functions": [fn.name for fn in getattr(prog, "functions", [])],
                             "helpers": sorted(getattr(prog, "helpers", []) or []),
                             "ignored": [list(map(str, x)) for x in getattr(P, "_VERIF_IGNORED", [])][:50]})
